@@ -295,11 +295,27 @@ Definition construct (d : design) : outcome dict :=
       end
   end.
 
-(** ** rounding precision ([_generate_dataset], the loop over [sorted(rounding_options.items())]) *)
-Fixpoint precision_of (opts : list (Z * Q)) (min_spacing : Q) : option Z :=
+(** ** rounding precision ([_generate_dataset]):
+    [rounding_precision = <init>; for precision, val in sorted(rounding_options.items()): if val <= min_spacing: rounding_precision = precision; break].
+    [init] is the value the variable holds before the loop — today [max(rounding_options)], the finest option ([max_key];
+    [min_key] is the reading of [min(...)], which the translator also understands);
+    [None] = no integer ([max] of an empty dict raises; a [None] there makes [Series.round(None)] raise). *)
+Fixpoint max_key (opts : list (Z * Q)) : option Z :=
   match opts with
   | [] => None
-  | (p, v) :: r => if Qle_bool v min_spacing then Some p else precision_of r min_spacing
+  | (p, _) :: r => match max_key r with None => Some p | Some q => Some (Z.max p q) end
+  end.
+
+Fixpoint min_key (opts : list (Z * Q)) : option Z :=
+  match opts with
+  | [] => None
+  | (p, _) :: r => match min_key r with None => Some p | Some q => Some (Z.min p q) end
+  end.
+
+Fixpoint precision_of (opts : list (Z * Q)) (init : option Z) (min_spacing : Q) : option Z :=
+  match opts with
+  | [] => init
+  | (p, v) :: r => if Qle_bool v min_spacing then Some p else precision_of r init min_spacing
   end.
 
 (** [self.param_study.get("min_spacing_between_visits", 1 / 365)] *)
@@ -328,6 +344,7 @@ Definition frame_ids (ps : dict) : list idv :=
 
 Section Run.
   Variable opts : list (Z * Q).        (** the regenerated rounding options, sorted *)
+  Variable init : option Z.            (** the regenerated value of [rounding_precision] before the loop *)
   Variable default_spacing : Q.        (** the regenerated default [1 / 365] *)
 
   Definition run_outcome (m : model_shape) (vt : vtype) (feats : featsv) (ps : dict) : outcome unit :=
@@ -345,13 +362,13 @@ Section Run.
         else if negb (nodupb (feature_names feats)) then Crash     (* duplicated column labels *)
         else match vt with
              | VtOther => Crash
-             | VtDataframe => match precision_of opts default_spacing with Some _ => Ok tt | None => Crash end
+             | VtDataframe => match precision_of opts init default_spacing with Some _ => Ok tt | None => Crash end
              | VtRandom =>
                  match min_spacing_of default_spacing ps with
                  | None => Crash
-                 | Some ms => match precision_of opts ms with
+                 | Some ms => match precision_of opts init ms with
                               | Some _ => Ok tt
-                              | None => Crash                      (* round(None) *)
+                              | None => Crash                      (* no integer precision: round raises *)
                               end
                  end
              end
